@@ -569,6 +569,32 @@ macro_rules! perp_world {
                     else if rem < &size * factor / &u { "leverage" } else { "none" })
             }
 
+            /// C11: the position's total pnl from first principles (exact integers, raw state only):
+            /// `(is_long, size, tokens, uncapped total, trader-capped total)` at the prices `pr` (index min,max, long min,max, short min,max)
+            pub fn pnl_totals(s: &Session, cfg: &[BigInt], pid: u64, pr: &[BigInt]) -> Option<(bool, BigInt, BigInt, BigInt, BigInt)> {
+                if cfg.len() != 56 || pr.len() != 6 { return None; }
+                let p = s.ps.get(&pid)?;
+                let m = &s.m;
+                let z = BigInt::from(0);
+                let il = p.is_long;
+                let (size, tokens) = (bu(p.size_in_usd), bu(p.size_in_tokens));
+                if size == z || tokens == z { return None; }
+                let (imin, imax) = (&pr[0], &pr[1]);
+                let side = |x: &(TestPool<$U>, TestPool<$U>)| if il { x.0 } else { x.1 };
+                let tot = |q: TestPool<$U>| bu(q.long_amount) + bu(q.short_amount);
+                let uncapped = if il { &tokens * imin - &size } else { &size - &tokens * imax };
+                let total = if uncapped > z {
+                    let pool_value = bu(if il { m.primary.long_amount } else { m.primary.short_amount }) * (if il { &pr[2] } else { &pr[4] });
+                    let (oi, oit) = (tot(side(&m.open_interest)), tot(side(&m.open_interest_in_tokens)));
+                    let pool_pnl = if oi == z && oit == z { z.clone() } else if il { &oit * imax - &oi } else { &oi - &oit * imin };
+                    if pool_pnl > z {
+                        let max_pnl = &pool_value * &cfg[19] / bu(UNIT);
+                        if pool_pnl > max_pnl { &max_pnl * &uncapped / &pool_pnl } else { uncapped.clone() }
+                    } else { uncapped.clone() }
+                } else { uncapped.clone() };
+                Some((il, size, tokens, uncapped, total))
+            }
+
             /// whole-market oracle (C13 on the market): the total-borrowing pool of each side equals
             /// Σ ⌊size · borrowing-factor snapshot / UNIT⌋ over that side's positions, recomputed here from the positions
             pub fn check_total_borrowing(s: &Session) -> Option<String> {
@@ -661,8 +687,18 @@ macro_rules! perp_world {
                         let size = (*r.pick(&[1_000_000_000u64, 20_000_000_000, 500_000_000_000, 5_000_000_000_000]) + r.below(1_000_000_000)) as $U * SCALE;
                         let cval = (size / SCALE) as u64 / (1 + r.below(30)) + r.below(2_000_000_000);
                         let c = (if cl { cval / self.px.max(1) } else { cval }) as $U;
-                        self.pending = vec![format!("perp dec {sid} {pid} {size} 0 0 0 1 {pr}"), format!("perp inc {sid} {pid} {c} {size} {pr}")];
-                        if r.chance(1, 3) { let o = self.next_pid; self.next_pid += 1; let os = size / 2 * r.range(1, 6) as $U; let oc = (os / SCALE / 5) as $U;
+                        // the close: exactly the size / requested far above the size with the cap flag (capped) / slightly below the
+                        // size (promoted to a full close when the remainder is under the minimum position size)
+                        let mode = r.below(4);
+                        let requested = match mode { 2 => size.saturating_mul(r.range(2, 9) as $U), 3 => size - (UNIT / 2).min(size), _ => size };
+                        self.pending = vec![format!("perp dec {sid} {pid} {requested} 0 0 0 1 {pr}"), format!("perp inc {sid} {pid} {c} {size} {pr}")];
+                        if mode == 2 {
+                            // another trader holds at least the requested size on the same side, so a decrease of the REQUESTED size
+                            // would be computable and would improve the balance
+                            let o = self.next_pid; self.next_pid += 1; let os = requested.saturating_add(size); let oc = (os / SCALE / 4) as $U;
+                            self.pending.push(format!("perp inc {sid} {o} {} {os} {pr}", if cl { oc / self.px.max(1) as $U } else { oc }));
+                            self.pending.push(format!("perp open {sid} {o} {} {}", il as u8, cl as u8));
+                        } else if r.chance(1, 3) { let o = self.next_pid; self.next_pid += 1; let os = size / 2 * r.range(1, 6) as $U; let oc = (os / SCALE / 5) as $U;
                             // someone else moves the open interest first
                             self.pending.push(format!("perp inc {sid} {o} {} {os} {pr}", if cl { oc / self.px.max(1) as $U } else { oc }));
                             self.pending.push(format!("perp open {sid} {o} {} {}", r.below(2), cl as u8)); }
@@ -701,13 +737,17 @@ macro_rules! perp_world {
                             if open.is_empty() { return Some(format!("perp tick {sid} {}", r.below(100))); }
                             let (pid, p) = open[r.below(open.len() as u64) as usize];
                             let (size, coll) = (p.size_in_usd, p.collateral_token_amount);
-                            let delta = match r.below(8) { 0 => size, 1 => 0, 2 => size - (r.below(2) as $U).min(size), 3 => (r.below(1_000_000) as $U).min(size), 4 => size / 2, 5 => size.saturating_add(r.below(5) as $U),
+                            let delta = match r.below(11) { 0 => size, 1 => 0, 2 => size - (r.below(2) as $U).min(size), 3 => (r.below(1_000_000) as $U).min(size), 4 => size / 2, 5 => size.saturating_add(r.below(5) as $U),
+                                // promoted to a full close: the remainder is below the minimum position size
+                                8 => size - (UNIT / 2).min(size), 9 => size - (UNIT * 3).min(size),
+                                // requested far above the position (closes only with the cap flag)
+                                10 => size.saturating_mul(r.range(2, 9) as $U),
                                 6 => { // crafted to round the remaining size in tokens to zero
                                     let t = p.size_in_tokens.max(1); size - size / t / 2 }
                                 _ => size / 1000 * r.below(1000) as $U };
                             let wd = match r.below(4) { 0 => 0, 1 => coll / 2, 2 => coll, _ => coll - coll / 10 };
                             self.pending = vec![format!("perp chk {sid} {pid} 1 1 {pr}"), format!("perp chk {sid} {pid} 0 0 {pr}")];
-                            Some(format!("perp dec {sid} {pid} {delta} {wd} {} 0 {} {pr}", r.chance(1, 4) as u8, r.below(2)))
+                            Some(format!("perp dec {sid} {pid} {delta} {wd} {} 0 {} {pr}", r.chance(1, 4) as u8, if delta > size { r.chance(3, 4) as u64 } else { r.below(2) }))
                         }
                         6 => {
                             // liquidation attempt (the store guard passes size_delta >= size): check first, then liquidate
@@ -880,6 +920,11 @@ pub fn run_bin(prop: &str) {
         // C09: health of the position before a liquidation order, by the independent computation
         let pre_liq: Option<&'static str> = if prop == "C09" && op == "dec" && t.len() == 15 && t[7] == "1" {
             health_any(&db64, &db128, &track, is64, &sid, t[3], &t[9..], true, true) } else { None };
+        // C11: the position's pnl totals before a decrease, recomputed from the raw state
+        let pre_pnl = if (prop == "C11" || whole) && op == "dec" && t.len() == 15 {
+            (|| { let cfg: Vec<BigInt> = track.get(&sid)?.cfg.iter().map(|x| bi(x)).collect(); let pid: u64 = t[3].parse().ok()?;
+                  let pr: Vec<BigInt> = t[9..].iter().map(|x| bi(x)).collect();
+                  if is64 { w64::pnl_totals(db64.get(&sid)?, &cfg, pid, &pr) } else { w128::pnl_totals(db128.get(&sid)?, &cfg, pid, &pr) } })() } else { None };
         // C10: was the position empty, is there other open interest, has claimable funding accrued in this market
         let (empty_before, oi_other, funding_hist) = {
             let pid = t.get(3).and_then(|x| x.parse::<u64>().ok());
@@ -988,6 +1033,25 @@ pub fn run_bin(prop: &str) {
                     }
                 }
             }
+            // ---------------- C11: a decrease realises the share of the position's pnl for the size ACTUALLY closed
+            if (prop == "C11" || whole) && op == "dec" && ok {
+                if let Some((il, size, tokens, uncapped, total)) = pre_pnl.clone() {
+                    let closed = bi(rt[1]);
+                    let requested = bi(t[4]);
+                    // tokens closed: everything on a full close, else ceil (long) / floor (short) of tokens·closed/size
+                    let sdt = if closed == size { tokens.clone() } else if il { (&tokens * &closed + &size - 1) / &size } else { &tokens * &closed / &size };
+                    let share = |x: &BigInt| &sdt * x / &tokens; // truncation toward zero (num-bigint division)
+                    if bi(rt[2]) != sdt { out.oracle_fail(&format!("decrease closed {closed} of {size} but reports {} size-in-tokens closed instead of {sdt} (position holds {tokens})", rt[2]), &req); }
+                    if bi(rt[5]) != share(&total) { out.oracle_fail(&format!("decrease closed {closed} of {size} (requested {requested}) but realised pnl {} instead of the share {} of the position's pnl {total}", rt[5], share(&total)), &req); }
+                    if bi(rt[6]) != share(&uncapped) { out.oracle_fail(&format!("decrease closed {closed} of {size} but reports uncapped pnl {} instead of {}", rt[6], share(&uncapped)), &req); }
+                    if closed == size { out.stat("c11.full_close");
+                        if requested < size { out.stat("c11.promoted_to_full_close"); } else if requested > size { out.stat("c11.capped_to_full_close"); }
+                        if total > BigInt::from(0) { out.stat("c11.full_close_profit"); } else if total < BigInt::from(0) { out.stat("c11.full_close_loss"); }
+                        if rt[8] != "1" { out.oracle_fail("the whole size was closed but the position was not removed", &req); }
+                    } else { out.stat("c11.partial_close"); if closed != requested { out.stat("c11.partial_close_adjusted"); } }
+                    if total != uncapped { out.stat("c11.trader_cap_binds"); }
+                }
+            }
             // ---------------- whole-market histories: C13 on the market and C12/C13 monotonicity after EVERY operation
             if whole {
                 let f = if is64 { db64.get(&sid).and_then(w64::check_total_borrowing) } else { db128.get(&sid).and_then(w128::check_total_borrowing) };
@@ -1094,6 +1158,7 @@ pub fn run_bin(prop: &str) {
                         if let Some((pr, cin, claimed_inc)) = last_inc.remove(&key) {
                             if pr == t[9..].join(" ") && rt[8] == "1" {
                                 out.stat("roundtrip.pairs");
+                                if bi(t[4]) > bi(rt[1]) { out.stat("roundtrip.capped_close"); } else if bi(t[4]) < bi(rt[1]) { out.stat("roundtrip.promoted_close"); }
                                 let (il, cl, _) = pos_before.clone().unwrap();
                                 out.stat(&format!("roundtrip.side_long{}_coll_long{}", il as u8, cl as u8));
                                 let p = p6(9);
